@@ -17,7 +17,7 @@ SPEC = {
     "must_reach": ["PyMatterSim.dynamic.dynamics:Dynamics.relaxation", "PyMatterSim.dynamic.dynamics:Dynamics.sq4",
                    "PyMatterSim.dynamic.dynamics:LogDynamics.relaxation", "PyMatterSim.dynamic.dynamics:cage_relative"],
     "floors": {"relaxation": 3000, "chi4": 300, "log_relaxation": 500, "wrapped_vs_unwrapped": 40, "sq4": 150,
-               "cage_relative_cases": 20, "fast_mode_cases": 20, "selection_cases": 20},
+               "cage_relative_cases": 20, "fast_mode_cases": 20, "selection_cases": 20, "object_history": 40},
     "rule": ("trajectories {ballistic, diffusive, arrested, mixed} x T 2..8 x N 3..40 x {2D,3D} x {xu, x, both} x diameter maps "
              "K 1..3 x cutoff factor x {slow,fast} x selection {none, constant-count, varying-count} x neighbour file {none, own "
              "writer, repository Nnearests} x linear / uneven timesteps (log variant); every lag and every origin is recomputed "
@@ -231,6 +231,36 @@ def one_case(ctx, rng, wd):
         back = pd.read_csv(outfile)
         ctx.check(mon, back.shape == res.shape and np.allclose(back.values, res.values, rtol=1e-12, atol=0), key + "/csv", "CSV differs from returned frame", info)
         os.remove(outfile)
+    # history on ONE object: another selection / wave number / S4 request first, then the case's own request must still follow the definition
+    if rng.random() < 0.35:
+        if variant == "log":
+            oc = rng.random(N) < 0.5
+            oc[-2:] = True
+        else:
+            oc = rng.random((T, N)) < 0.5
+            oc[:, -2:] = True
+        first = str(rng.choice(["other_selection", "no_selection", "other_q", "sq4_first"]))
+
+        def history():
+            obj = klass(**kw)
+            if first == "other_selection":
+                obj.relaxation(qconst=qconst, condition=oc)
+            elif first == "no_selection":
+                obj.relaxation(qconst=qconst, condition=None)
+            elif first == "other_q":
+                obj.relaxation(qconst=qconst * 0.61, condition=None if cond is None else cond.copy())
+            elif variant == "linear":
+                try:
+                    obj.sq4(t=float((ts[1] - ts[0]) * dt), qrange=2.5 * np.pi / L.min() * 2, condition=oc)
+                except ZeroDivisionError:
+                    pass            # empty mobility subset: outside the domain, only used as history here
+            return obj.relaxation(qconst=qconst, condition=None if cond is None else cond.copy())
+        okh, resh = ctx.call(key + "/object_history", history, data=info)
+        if okh:
+            goth = resh.values.astype(float)
+            colsel = [j for j, c in enumerate(cols) if not (c == "X4_Qt" and variant == "linear" and cond is not None and selkind == "vary")]
+            ctx.close("object_history", goth[:, colsel], ref[:, colsel], key + "/object_history", rtol=1e-9, atol=1e-9 * max(1, N),
+                      what=f"relaxation() after {first} on the same object", data=lambda: {**info(), "first_call": first}, n=1)
     # relational: wrapped + periodic flags == unwrapped, whenever no displacement exceeds L/2
     if variant == "linear" and maxdisp < 0.45 * L.min() and rng.random() < 0.5:
         kx = dict(kw)
@@ -289,7 +319,18 @@ def one_case(ctx, rng, wd):
             ctx.skip("sq4")
             return
         acc /= (T - n_t)
-        ok4, s4 = ctx.call("Dynamics.sq4", lambda: Dynamics(**kw).sq4(t=tchar, qrange=qrange, condition=None if cond is None else cond.copy()), data=info)
+        prior = bool(rng.random() < 0.4)      # history: another S4 request (other lag, other wave-number range) on the same object first
+
+        def s4call():
+            obj = Dynamics(**kw)
+            if prior:
+                try:
+                    obj.sq4(t=float((ts[1] - ts[0]) * dt), qrange=qrange * 0.55, condition=None)
+                except ZeroDivisionError:
+                    pass
+                ctx.count("sq4_object_history")
+            return obj.sq4(t=tchar, qrange=qrange, condition=None if cond is None else cond.copy())
+        ok4, s4 = ctx.call("Dynamics.sq4", s4call, data=info)
         if ok4:
             good = list(s4.columns) == ["q", "Sq"] and len(s4) == len(uq)
             if ctx.check("sq4", good, "Dynamics.sq4/layout", lambda: f"columns {list(s4.columns)} rows {len(s4)} expected {len(uq)}", info):
